@@ -12,8 +12,8 @@ import (
 
 func init() {
 	register(&propDef{
-		ID:  "C06",
-		Run: ruleC06,
+		ID:          "C06",
+		Run:         ruleC06,
 		Explanation: "Decides the structural necessary conditions of 'order-preserving, line-local map' (C06): (R1) line-locality - in the code reachable from the per-line functions (redactor, serialiser, scan loop) no package-level state is both written and read, the shared operator tables are never mutated, there is no goroutine / channel / sync use, no time / randomness / environment / file source is called, and no Go-map iteration order can reach the output; (R2) the scan loop takes the scanned line only to the redactor and to comparisons with the empty string, performs at most one write per iteration whose payload is exactly string(MarshalOrdered(RedactMongoLog(line))), every iteration that writes nothing is on a path guarded by the redactor's error, the serialiser's error or line==\"\" (so no other state - in particular the progress bar - can suppress a record), and leaves the loop only by returning a non-nil error; (R3) one funnel - every input channel (plain file, gzip file, stdin, Atlas files) reaches the same scan loop with the caller's own writer, the output handle is used by nobody else, every success return of the channel wrappers comes from the scan loop, and a progress bar can only exist when records do not go to stdout. NOT decided: CRLF / final-newline handling and gzip member handling (bufio.ScanLines, compress/gzip - trusted library), byte equality across OS channels.",
 		RuleText:    "obligations = package-level variables touched on the line path (mod/ref), ordered-map mutator calls (receiver provenance), concurrency/nondeterminism instructions (with positive controls), uses of the scanned line, write sites and write-free iteration paths of the scan loop (bounded path enumeration with edge facts), uses of the output handle in the redact command, calls of the scan loop and of its wrappers",
 	})
@@ -559,7 +559,9 @@ func c06LoopShape(c *Ctx, r *Report, an *Anchors, p *Prov) {
 	region := loop.Region()
 
 	// one scanner, one loop
-	nScanners := len(callsIn(sf, func(k string, _ *ssa.Call) bool { return k == "bufio.NewScanner" || k == "bufio.NewReader" || k == "bufio.NewReaderSize" }))
+	nScanners := len(callsIn(sf, func(k string, _ *ssa.Call) bool {
+		return k == "bufio.NewScanner" || k == "bufio.NewReader" || k == "bufio.NewReaderSize"
+	}))
 	nLoops := 0
 	for _, l := range naturalLoops(sf) {
 		_ = l
